@@ -1,8 +1,8 @@
 #!/bin/bash
 # usage: seedtest.sh <seed-dir> <check-id>...   e.g. seedtest.sh /verif/seeded/C03-a C03
 # Confirms a seeded change (suite passes with it, demo fails with it and passes without) in a
-# scratch worktree outside /repo and /verif, then applies it to /repo, runs the named checks'
-# quick commands and reverts /repo.
+# scratch worktree outside /repo and /verif, then runs the named checks' quick commands built
+# against that worktree.
 export GOFLAGS=-mod=mod GOPROXY=off GOSUMDB=off GOTOOLCHAIN=local
 D=$1; shift
 T=$(mktemp -d /tmp/seedwt.XXXX)
@@ -17,13 +17,13 @@ git apply $D/patch.diff || { echo "PATCH DOES NOT APPLY"; exit 2; }
 echo "== suite with the change (must pass)"; go test -count=1 ./... 2>&1 | tail -1
 cp $D/demo_test.go ./zz_demo_test.go
 echo "== demo with the change (must fail)"; go test -run "$TEST" -count=1 . 2>&1 | tail -1
+rm zz_demo_test.go
 cd /verif
-git -C /repo apply $D/patch.diff || exit 2
+# the checks are built against the scratch worktree (VERIF_REPO, see ./check): the same
+# as applying the patch to /repo and reverting it, without disturbing checks that run meanwhile
 for c in "$@"; do
   echo "== check $c on the changed tree"
-  ./check $c --tier quick > $T/out.$c 2>&1; rc=$?
+  VERIF_REPO=$T/wt ./check $c --tier quick > $T/out.$c 2>&1; rc=$?
   grep -a "VIOLATION\|^OK\|INCONCL" $T/out.$c | head -3
   echo "exit=$rc"
 done
-git -C /repo checkout -- .
-git -C /repo status --short
